@@ -105,6 +105,10 @@ Definition simd_guard {T} (zero : T) (C M : nat) (q : sseq) (a b : nat) (old : s
     let sc := sc_resize zero C old (b - a) ((sq_len q + 1) - M) in
     rbind (kernel (sc_mat sc)) (fun m => Ok (mkScores m (sc_max sc))).
 
+(* arms of `enum Dispatch` (x86-64) and the kernels they can select *)
+Inductive kernel_id := KGeneric | KSse2 | KAvx2.
+Inductive arm := ArmGeneric | ArmSse2 | ArmAvx2.
+
 Section Simd.
   Context {T : Type}.
   Variable add : T -> T -> T.     (* one lane of _mm256_add_ps / _mm_add_ps *)
@@ -253,9 +257,6 @@ Section Simd.
     simd_guard zero C (length pssm) q a b old (sse2_kernel C pssm q a b).
 
   (* ---------- dispatcher ---------- *)
-
-  Inductive kernel_id := KGeneric | KSse2 | KAvx2.
-  Inductive arm := ArmGeneric | ArmSse2 | ArmAvx2.
 
   (* the table `match self.backend` of impl Score<f32, ..> for Pipeline<A, Dispatch>,
      re-extracted from dispatch.rs by the translator *)
